@@ -70,6 +70,17 @@ def run_property(prop, tier, seed, replay=None):
     for fl in flavours:
         exes[fl] = core.build_harness(fl)
 
+    if core.DEGRADED:
+        msg = next(iter(core.DEGRADED.values()))
+        if prop == "C18":
+            violations.append(("oracle", "well-formed declarations (the enums of harness/src/derive_specs.rs, accepted by the model and by the pinned "
+                               "macros) are rejected by the derive macros of the current tree: " + msg[:800],
+                               {"property": prop, "why": "declarations of harness/src/derive_specs.rs no longer compile", "compile_errors": msg,
+                                "declarations": "harness/src/derive_specs.rs (the source locations are in compile_errors)"}))
+        else:
+            notes.append("harness built without the macro-declared enums (they do not compile with the current derive crate); not used by this property")
+            log("note: " + notes[-1])
+
     # ---- 3. cases -----------------------------------------------------------------
     if replay:
         payload = json.load(open(replay))
